@@ -23,7 +23,7 @@ import pysam
 import gffutils
 import pyfaidx
 
-from src.gtf2db import convert_gtf_to_db, store_config
+from src.gtf2db import convert_gtf_to_db, check_db_sequences, store_config
 from src.read_mapper import (
     DATA_TYPE_ALIASES,
     SUPPORTED_STRANDEDNESS,
@@ -764,6 +764,8 @@ def run_pipeline(args):
     # convert GTF/GFF if needed
     if args.genedb and not args.genedb.lower().endswith('db'):
         args.genedb = convert_gtf_to_db(args)
+    elif args.genedb and args.gtf_check:
+        check_db_sequences(args.genedb)
 
     # map reads if fastqs are provided
     if args.input_data.input_type == "fastq":
